@@ -42,6 +42,12 @@ pub fn run(tier: &str) -> Result<Report, String> {
                 rep.sample(json!({"network": b.name, "labels": desc, "formula": f.show(&ctx.user), "expected_states_per_colour": ctx.expected(f).iter().map(|m| format!("{m:b}")).collect::<Vec<_>>()}));
             }
             sem::sweep(&mut rep, &ctx, &fs, ck);
+            // the same with labels whose NAMES look like constants / digits / quantifier symbols
+            if desc == "mixed" {
+                let odd = ctx.with_label_names(&["1", "false", "True"][..ctx.labels.wild.len().min(3)], &["0", "true", "V"][..ctx.labels.dom.len().min(3)]);
+                let small: Vec<_> = fs.iter().filter(|f| f.size() <= 4).cloned().collect();
+                sem::sweep(&mut rep, &odd, &small, ck);
+            }
         }
         slices.push(json!({"network": b.name, "max_nodes": m, "alphabet": alpha.describe(), "formulae": fs.len(), "label_families": fams}));
     }
@@ -91,7 +97,7 @@ pub fn run(tier: &str) -> Result<Report, String> {
         rep.set("wide_models", json!(big));
     }
     rep.set("slices", json!(slices));
-    rep.rule = "all closed extended formulae with at most max_nodes nodes that contain a wild-card or a domain, plus the extended template families (nested and repeated domains, the same inner domain under different outer domains, pattern and duplicate shapes inside domain scopes) and the pair family (every ordered pair of the collision alphabet joined by & / |, and nested as Q{x} in %d%: (A & @{x}: B)), x every label family (context-set assignment), through model_check_extended_formula(_dirty), compared with the explicit-state oracle on every state x valid colour; plus the operator sweep: every unary/binary operator and every quantifier form with/without domains on EVERY coloured set (and every pair of sets) of tiny networks; plus, on synthetic wide models with more than 2^53 state x colour pairs, the three README equivalences for 7 bodies x 7 domains (full, empty, all but one state, all but one (state, colour) pair, one state, ...) and the closed forms `!{x} in %d%: True` = d, `3{x} in %d%: @{x}: ~%d%` = empty, `V{x} in %d%: @{x}: %d%` = everything; distinct_nontrivial = distinct non-trivial (network, labels, verdict table)".into();
+    rep.rule = "all closed extended formulae with at most max_nodes nodes that contain a wild-card or a domain, plus the extended template families (nested and repeated domains, the same inner domain under different outer domains, pattern and duplicate shapes inside domain scopes) and the pair family (every ordered pair of the collision alphabet joined by & / |, and nested as Q{x} in %d%: (A & @{x}: B)), x every label family (context-set assignment; the mixed family also under the label names 1, false, True / 0, true, V), through model_check_extended_formula(_dirty), compared with the explicit-state oracle on every state x valid colour; plus the operator sweep: every unary/binary operator and every quantifier form with/without domains on EVERY coloured set (and every pair of sets) of tiny networks; plus, on synthetic wide models with more than 2^53 state x colour pairs, the three README equivalences for 7 bodies x 7 domains (full, empty, all but one state, all but one (state, colour) pair, one state, ...) and the closed forms `!{x} in %d%: True` = d, `3{x} in %d%: @{x}: ~%d%` = empty, `V{x} in %d%: @{x}: %d%` = everything; distinct_nontrivial = distinct non-trivial (network, labels, verdict table)".into();
     Ok(rep)
 }
 
